@@ -10,6 +10,7 @@ import (
 	"github.com/aperturerobotics/bifrost/pubsub"
 	"github.com/aperturerobotics/bifrost/pubsub/util/pubmessage"
 	cache "github.com/patrickmn/go-cache"
+	"github.com/sirupsen/logrus"
 	rt "github.com/aperturerobotics/bifrost/zz_verifrt"
 )
 
@@ -18,6 +19,7 @@ import (
 func c27Node(channels []string) *FloodSub {
 	m := &FloodSub{
 		conf:         &Config{},
+		le:           logrus.NewEntry(logrus.New()),
 		wakeCh:       make(chan struct{}, 1),
 		peers:        make(map[pubsub.PeerLinkTuple]*streamHandler),
 		channels:     make(map[string]map[*subscription]struct{}),
@@ -85,7 +87,7 @@ func VerifC27Deliver() {
 	}
 	same := rt.And(rt.And(rt.BytesEq(pkt.Data, honest.Data), rt.BytesEq(pkt.Signature.SigData, honest.Signature.SigData)),
 		rt.And(pkt.FromPeerId == honest.FromPeerId, pkt.Signature.HashType == honest.Signature.HashType))
-	s := &streamHandler{m: m, peerID: peer.ID("\x00\x01P"), ctx: context.Background()}
+	s := &streamHandler{m: m, le: m.le, peerID: peer.ID("\x00\x01P"), ctx: context.Background()}
 	rt.KnownFinding("C01-verify-error-dropped", rt.Not(same))
 	s.handlePublish([]*peer.SignedMsg{pkt})
 	rt.Quiesce()
